@@ -56,8 +56,9 @@ def scenario(name, pools, nodes, pods, pdbs, steps, tags=None, options=None, t0=
 
 
 # ------------------------------------------------------------------ the base cluster of a method: X is its best candidate
-def base(m):
-    """Cluster in which node x (pool xp) is the best candidate of method m and y (pool cp) an unblocked control."""
+def base(m, variant=0):
+    """Cluster in which node x (pool xp) is the best candidate of method m and y (pool cp) an unblocked control.
+    variant 1: the pod that carries pod-level blockers is a DaemonSet pod (emptiness) / a StatefulSet pod (others)."""
     static = m == "staticdrift"
     pools = [pool("xp", static=static), pool("cp", static=static, replicas=2 if m == "multi" else 1)]
     drift = dict(drifted=True) if m in EVENTUAL else {}
@@ -75,6 +76,12 @@ def base(m):
     else:  # multi
         nodes = [node("x", "xp", "large"), node("y", "cp", "medium"), node("w", "cp", "medium")]
         pods = [pod("px", "x"), pod("py", "y"), pod("pw", "w")]
+    if variant == 1:
+        px = _px(pods)
+        if m == "emptiness":
+            px.update(owner="daemonset", deletionCost="", cpu=100)
+        else:
+            px.update(owner="statefulset")
     return pools, nodes, pods, []
 
 
@@ -143,7 +150,7 @@ def apply_blocker(b, pools, nodes, pods, pdbs, rng=None, xname="x", pxname="px",
             px["dnd"] = "garbage" if rng is None else rng.choice(["garbage", "-5m", "0s", "false", "True"])
         elif b == "podDndTerminal":
             px.update(dnd="true", phase="Succeeded" if rng is None else rng.choice(["Succeeded", "Failed"]))
-            if not px["deletionCost"]:   # keep the node non-empty for the methods that only take non-empty nodes
+            if not px["deletionCost"] and px["owner"] != "daemonset":   # keep the node non-empty for the methods that want it so
                 pods.append(pod(pxname + "b", xname))
     elif b == "dsPodDnd":
         if x["stage"] != "launched" and not x["nodeGone"]:
@@ -216,12 +223,12 @@ def churn_steps(b, pods):
     raise vlib.InfraError("no churn mapping for blocker %r" % b)
 
 
-def cell_scenario(cell, rng=None, with_round=True):
+def cell_scenario(cell, rng=None, with_round=True, again=False, variant=0):
     """One cell of the table (as printed by Disruption.tla's GenPrint) -> a scenario."""
     m = cell["m"]
     pre = list(cell["pre"]) if isinstance(cell["pre"], list) else []
     churn = list(cell["churn"]) if isinstance(cell["churn"], list) else []
-    pools, nodes, pods, pdbs = base(m)
+    pools, nodes, pods, pdbs = base(m, variant)
     for b in pre:
         apply_blocker(b, pools, nodes, pods, pdbs, rng)
     during = []
@@ -231,7 +238,10 @@ def cell_scenario(cell, rng=None, with_round=True):
     if with_round:
         # the same decision once more through the real Controller.Reconcile (all methods in order, StartCommand)
         steps.append({"a": "Round"})
-    name = "cell:%s:%s:%s" % (m, "+".join(pre) or "-", "+".join(churn) or "-")
+        if again:
+            # whatever the round started is now in flight: the method must not select those nodes again
+            steps.append({"a": "Method", "method": m})
+    name = "cell%s:%s:%s:%s" % ("" if variant == 0 else "-v%d" % variant, m, "+".join(pre) or "-", "+".join(churn) or "-")
     tags = {"kind": "cell", "method": m, "pre": "+".join(pre) or "-", "churn": "+".join(churn) or "-",
             "issued": bool(cell["issued"]), "target": "x"}
     return scenario(name, pools, nodes, pods, pdbs, steps, tags)
